@@ -47,12 +47,77 @@ func fromBV(x Term, t types.Type) Term { return toInt(x, t) }
 
 func (fr *Frame) regOrConst(st *State, v ssa.Value) Term { return fr.val(st, v).Term() }
 
+// floatOp: floating point arithmetic and ordering are uninterpreted functions of their operands (deterministic,
+// no further axioms): enough to relate a value computed by the code to the same expression in a contract.
 func (fr *Frame) floatOp(st *State, op token.Token, a, b Val, resT types.Type) Val {
-	fr.top.note("floating point operation abstracted (uninterpreted)")
+	fr.top.note("floating point operation abstracted (uninterpreted function of its operands)")
+	if a.K != KNormal || b.K != KNormal || len(a.C) != 1 || len(b.C) != 1 || a.C[0].Sort != "F64" || b.C[0].Sort != "F64" {
+		if isBool(resT) {
+			return scalar(resT, fr.ctx.Fresh("fcmp", SBool))
+		}
+		return scalar(resT, fr.ctx.Fresh("fop", "F64"))
+	}
+	x, y := a.C[0], b.C[0]
+	app := func(f, ret string, p, q Term) Term {
+		fn := fr.ctx.Func(f, []string{"F64", "F64"}, ret)
+		return Term{fmt.Sprintf("(%s %s %s)", fn, p.S, q.S), ret}
+	}
+	switch op {
+	case token.LSS:
+		return scalar(resT, app("f64lt", SBool, x, y))
+	case token.GTR:
+		return scalar(resT, app("f64lt", SBool, y, x))
+	case token.LEQ:
+		return scalar(resT, app("f64le", SBool, x, y))
+	case token.GEQ:
+		return scalar(resT, app("f64le", SBool, y, x))
+	case token.ADD:
+		return scalar(resT, app("f64add", "F64", x, y))
+	case token.SUB:
+		return scalar(resT, app("f64sub", "F64", x, y))
+	case token.MUL:
+		return scalar(resT, app("f64mul", "F64", x, y))
+	case token.QUO:
+		return scalar(resT, app("f64quo", "F64", x, y))
+	}
 	if isBool(resT) {
 		return scalar(resT, fr.ctx.Fresh("fcmp", SBool))
 	}
 	return scalar(resT, fr.ctx.Fresh("fop", "F64"))
+}
+
+// floatConv: conversions between integers and floats (and between float widths) as uninterpreted functions.
+func (fr *Frame) floatConv(st *State, v Val, from, to types.Type) Val {
+	kind := func(t types.Type) string { return t.Underlying().(*types.Basic).Name() }
+	if v.K != KNormal || len(v.C) != 1 {
+		nv := fr.fresh("fconv", to)
+		fr.assumeWF(st, nv)
+		return nv
+	}
+	switch {
+	case isInteger(from) && isFloat(to):
+		fn := fr.ctx.Func("i2f_"+kind(to), []string{SInt}, "F64")
+		return scalar(to, Term{fmt.Sprintf("(%s %s)", fn, toInt(v.C[0], from).S), "F64"})
+	case isFloat(from) && isFloat(to):
+		if kind(from) == kind(to) || kind(to) == "float64" {
+			o := v
+			o.T = to
+			return o
+		}
+		fn := fr.ctx.Func("f2f_"+kind(to), []string{"F64"}, "F64")
+		return scalar(to, Term{fmt.Sprintf("(%s %s)", fn, v.C[0].S), "F64"})
+	}
+	// float -> integer: some value of the target type, a function of the operand
+	fn := fr.ctx.Func("f2i_"+kind(to), []string{"F64"}, SInt)
+	r := Term{fmt.Sprintf("(%s %s)", fn, v.C[0].S), SInt}
+	if isWide(to) {
+		nv := scalar(to, r)
+		fr.assumeWF(st, nv) // the function's range is the target type (consistent: it is uninterpreted)
+		return nv
+	}
+	nv := fr.fresh("fconv", to)
+	fr.assume(st, Eq(toInt(nv.C[0], to), r)) // likewise: fixes the function's value to one of the type
+	return nv
 }
 
 // altOf returns a bit-vector whose unsigned value equals the (non-negative) wide value.
@@ -494,10 +559,8 @@ func (fr *Frame) execConvert(st *State, x *ssa.Convert) {
 		fr.copyInto(st, obj, IntT(0), v.Obj(), v.Off(), v.Len(), types.Typ[types.Uint8])
 		fr.setReg(x, mkString(to, obj, IntT(0), v.Len()))
 	case isInteger(from) && isFloat(to), isFloat(from) && isInteger(to), isFloat(from) && isFloat(to):
-		fr.top.note("float conversion abstracted")
-		nv := fr.fresh("fconv", to)
-		fr.assumeWF(st, nv)
-		fr.setReg(x, nv)
+		fr.top.note("float conversion abstracted (uninterpreted function of its operand)")
+		fr.setReg(x, fr.floatConv(st, v, from, to))
 	case isPointerLike(from) && isPointerLike(to):
 		v.T = to
 		fr.setReg(x, v)
